@@ -94,3 +94,28 @@ def gen_threads_and_ladder(tier, seed, work):
     sa['states'] = sa.get('states', 0) + sb.get('states', 0)
     sa['distinct'] = sa.get('distinct', 0) + sb.get('distinct', 0)
     return a, sa
+
+
+def gen_order(tier, seed, work):
+    """every insertion order of up to 3 entries reachable in MC_Order (nested tables included)"""
+    res = tlc.run_tlc(os.path.join(tlc.SPEC, 'mc', 'MC_Order.tla'), os.path.join(tlc.SPEC, 'mc', 'MC_Order_gen.cfg'),
+                      workers=1, xmx='6g', xss='64m')
+    if 'Model checking completed. No error has been found.' not in res['out']:
+        raise tlc.MachineryError('S2C generator MC_Order_gen failed\n%s' % res['out'][-3000:])
+    items = parse_s2c(res['out'])
+    seen, uniq = set(), []
+    for it in items:
+        k = json.dumps(it)
+        if k not in seen:
+            seen.add(k)
+            uniq.append(it)
+    import random
+    random.Random(seed).shuffle(uniq)
+    if tier == 'quick':
+        uniq = uniq[:1500]
+    path = os.path.join(work, 'orders.ndjson')
+    with open(path, 'w') as f:
+        for it in uniq:
+            f.write(json.dumps(it) + '\n')
+    return {'orders': path}, {'module': 'MC_Order', 'cfg': 'MC_Order_gen', 'states': res.get('states', 0),
+                              'distinct': res.get('distinct', 0), 'orders': len(uniq), 'wall_s': round(res['wall'], 2)}
